@@ -108,12 +108,16 @@ impl ProcessState {
             dbfile.push("db.sqlite3");
             dbfile
         };
+        #[cfg(feature = "verif-hooks")]
+        crate::verif::point("init-check", "");
         let must_create = !dbfile.exists();
         let mut db: Connection;
         {
             let tx = if !must_create {
                 db = connect(&e, &dbfile)
                     .map_err(|e| RedoError::new(format!("could not connect: {}", e)))?;
+                #[cfg(feature = "verif-hooks")]
+                crate::verif::point("init-read", "");
                 let tx = db.transaction().map_err(RedoError::opaque_error)?;
                 let ver: Option<i32> = tx
                     .query_row("select version from Schema", [], |row| row.get(0))
@@ -129,9 +133,15 @@ impl ProcessState {
                 }
                 tx
             } else {
+                #[cfg(feature = "verif-hooks")]
+                crate::verif::point("init-unlink", "");
                 helpers::unlink(&dbfile).map_err(RedoError::opaque_error)?;
+                #[cfg(feature = "verif-hooks")]
+                crate::verif::point("init-connect", "");
                 db = connect(&e, &dbfile)
                     .map_err(|e| RedoError::new(format!("could not connect: {}", e)))?;
+                #[cfg(feature = "verif-hooks")]
+                crate::verif::point("init-create", "");
                 let tx = db.transaction().map_err(RedoError::opaque_error)?;
                 tx.execute(
                     "create table Schema \
@@ -185,6 +195,10 @@ impl ProcessState {
             };
 
             if e.runid.is_none() {
+                #[cfg(feature = "verif-hooks")]
+                if !must_create {
+                    crate::verif::point("init-runid", "");
+                }
                 tx.execute(
                     "insert into Runid values \
                         ((select max(id)+1 from Runid))",
@@ -257,9 +271,17 @@ impl<'a> ProcessTransaction<'a> {
             TransactionBehavior::Exclusive => "BEGIN EXCLUSIVE",
             _ => todo!(),
         };
+        #[cfg(feature = "verif-hooks")]
+        crate::verif::point("txn-begin", query);
         state
             .db
             .execute_batch(query)
+            .map(move |_| {
+                #[cfg(feature = "verif-hooks")]
+                if query != "BEGIN DEFERRED" {
+                    crate::verif::txn_enter();
+                }
+            })
             .map(move |_| ProcessTransaction {
                 state: Some(state),
                 drop_behavior: DropBehavior::Rollback,
@@ -301,6 +323,11 @@ impl<'a> ProcessTransaction<'a> {
 
     fn finish_(&mut self) -> rusqlite::Result<&'a mut ProcessState> {
         let state = self.state.take().unwrap();
+        #[cfg(feature = "verif-hooks")]
+        let _verif_txn_end = VerifTxnEnd(match self.drop_behavior {
+            DropBehavior::Commit => "commit",
+            _ => "rollback",
+        });
         match self.drop_behavior {
             DropBehavior::Ignore => Ok(state),
             DropBehavior::Commit => match state.db.execute_batch("COMMIT") {
@@ -1122,6 +1149,8 @@ impl LockManager {
                 Err(e) => Err(RedoError::wrap(e, "could not check for broken locks")),
             },
             Ok(ForkResult::Child) => {
+                #[cfg(feature = "verif-hooks")]
+                crate::verif::quiet();
                 // Doesn't actually unlock, since child process doesn't own it.
                 if let Err(_) = pl.unlock() {
                     process::exit(EXIT_HELPER_FAILURE);
@@ -1209,6 +1238,8 @@ impl Lock {
     pub fn try_lock(&mut self) -> Result<bool, RedoError> {
         self.check()?;
         assert!(!self.owned);
+        #[cfg(feature = "verif-hooks")]
+        crate::verif::point("lock-try", &format!("fid={}", self.fid));
         let result = fcntl::fcntl(
             self.manager.file.as_raw_fd(),
             FcntlArg::F_SETLK(
@@ -1217,6 +1248,8 @@ impl Lock {
         );
         match result {
             Ok(_) => {
+                #[cfg(feature = "verif-hooks")]
+                crate::verif::note("lock-acquired", &format!("fid={}", self.fid));
                 self.owned = true;
                 Ok(true)
             }
@@ -1233,6 +1266,29 @@ impl Lock {
             LockType::Exclusive => libc::F_WRLCK as c_short,
             LockType::Shared => libc::F_RDLCK as c_short,
         };
+        #[cfg(feature = "verif-hooks")]
+        if crate::verif::active() {
+            // Poll instead of sleeping in the kernel, so that the scheduler sees the wait.
+            loop {
+                crate::verif::point(
+                    "lock-wait",
+                    &format!("fid={} type={}", self.fid, if fcntl_type == libc::F_WRLCK as c_short { "w" } else { "r" }),
+                );
+                let result = fcntl::fcntl(
+                    self.manager.file.as_raw_fd(),
+                    FcntlArg::F_SETLK(&fid_flock(fcntl_type, self.fid).map_err(RedoError::opaque_error)?),
+                );
+                match result {
+                    Ok(_) => {
+                        crate::verif::note("lock-acquired", &format!("fid={}", self.fid));
+                        self.owned = true;
+                        return Ok(());
+                    }
+                    Err(Errno::EACCES) | Err(Errno::EAGAIN) => continue,
+                    Err(e) => return Err(RedoError::opaque_error(e)),
+                }
+            }
+        }
         fcntl::fcntl(
             self.manager.file.as_raw_fd(),
             FcntlArg::F_SETLKW(&fid_flock(fcntl_type, self.fid).map_err(RedoError::opaque_error)?),
@@ -1245,6 +1301,8 @@ impl Lock {
     /// Release the lock, which we must currently own.
     pub fn unlock(&mut self) -> Result<(), RedoError> {
         assert!(self.owned, "can't unlock {} - we don't own it", self.fid);
+        #[cfg(feature = "verif-hooks")]
+        crate::verif::point("unlock", &format!("fid={}", self.fid));
         fcntl::fcntl(
             self.manager.file.as_raw_fd(),
             FcntlArg::F_SETLK(
@@ -1414,6 +1472,23 @@ where
         };
         buf.push(fname);
         Ok(Cow::Owned(buf))
+    }
+}
+
+/// Add-only re-export of the private directory canonicaliser for direct enumeration.
+#[cfg(feature = "verif-hooks")]
+pub fn verif_realdirpath(t: &Path) -> io::Result<PathBuf> {
+    realdirpath(t).map(|p| p.into_owned())
+}
+
+#[cfg(feature = "verif-hooks")]
+struct VerifTxnEnd(&'static str);
+
+#[cfg(feature = "verif-hooks")]
+impl Drop for VerifTxnEnd {
+    fn drop(&mut self) {
+        crate::verif::note("txn-end", self.0);
+        crate::verif::txn_leave();
     }
 }
 
